@@ -819,22 +819,22 @@ fn audio_strategy() -> impl Strategy<Value = AudioCase> {
         .prop_map(|(audio, rate, channels, frames, fast_start)| AudioCase { audio, rate, channels, frames, fast_start })
 }
 
-fn s_h264(_: Tier) -> BoxedStrategy<KeyCase> {
+pub fn s_h264(_: Tier) -> BoxedStrategy<KeyCase> {
     key_strategy(Some(0)).boxed()
 }
-fn s_h265(_: Tier) -> BoxedStrategy<KeyCase> {
+pub fn s_h265(_: Tier) -> BoxedStrategy<KeyCase> {
     key_strategy(Some(1)).boxed()
 }
-fn s_av1(_: Tier) -> BoxedStrategy<KeyCase> {
+pub fn s_av1(_: Tier) -> BoxedStrategy<KeyCase> {
     key_strategy(Some(2)).boxed()
 }
-fn s_vp9(_: Tier) -> BoxedStrategy<KeyCase> {
+pub fn s_vp9(_: Tier) -> BoxedStrategy<KeyCase> {
     key_strategy(Some(3)).boxed()
 }
-fn s_init(_: Tier) -> BoxedStrategy<InitCase> {
+pub fn s_init(_: Tier) -> BoxedStrategy<InitCase> {
     init_strategy().boxed()
 }
-fn s_audio(_: Tier) -> BoxedStrategy<AudioCase> {
+pub fn s_audio(_: Tier) -> BoxedStrategy<AudioCase> {
     audio_strategy().boxed()
 }
 
